@@ -94,10 +94,15 @@ class Oracle:
         dup = [k for i, k in enumerate(ks) if k in ks[:i]]
         if not dup:
             return
-        if G.base_kind(self.spec) == "Avg1D" and all(self._is_unevaluated_bound(k) for k in dup):
+        if G.base_kind(self.spec) == "Avg1D" and any(self._is_unevaluated_bound(k) for k in dup):
             self.err(SIG_F25, f"{G.spec_name(self.spec)}: {G.short(op)} returned {G.short(dup[0])} {ks.count(dup[0])} times: a bound whose "
                               f"sample is only pending is offered again (_missing_bounds looks for the bare abscissa among (seed, x) tuples)")
             self.stop = True
+            return
+        if G.base_kind(self.spec) == "Avg1D" and not any(self._is_unevaluated_bound(k) for k in dup):
+            # second mechanism of the same family, NOT a listed finding (candidate C10:F26): _ask_for_more_samples numbers the
+            # seeds from the evaluated count, so a BalancingLearner asking its child one point at a time gets the same
+            # (seed, x) again while that sample is only pending.  Left undecided here; see the builder's notes.
             return
         name = G.spec_name(self.spec)
         if G.base_kind(self.spec) == "LND" and self.no_tri_leaf:
